@@ -14,3 +14,13 @@ Proof. exact handle_never_out_of_fuel. Qed.
 Print Assumptions C06_handle_total.
 
 Check ex_malformed.
+
+(* over a socket: the per-connection loop of varlink::listen (bookkeeping read from server.rs) always ends - also when
+   the peer closes in the middle of a message - and has written the specification's output, which by the theorem above
+   contains nothing for or after a malformed message *)
+From VL Require Import Worker WorkerFacts.
+Theorem C06_listen_worker_ends_with_spec_output : forall svc chunks fuel, (2 * length chunks + 2 <= fuel)%nat ->
+  src_worker svc fuel chunks = (spec_out svc (concat chunks), WFinished).
+Proof. exact src_worker_spec. Qed.
+Print Assumptions C06_listen_worker_ends_with_spec_output.
+Check truncated_message_spins. Check malformed_then_answered.
